@@ -180,6 +180,75 @@ func ManyEvents() (bodies [][]byte, evs [][]refsmf.Event) {
 	return
 }
 
+// Bursts: n events on one tick behind an event that carries a delta, three
+// bursts in a row (sizes 2..70 and around 128, 256, 1024), explicit status
+// bytes on some of the events only.
+func Bursts() (bodies [][]byte, evs [][]refsmf.Event) {
+	var sizes []int
+	for n := 2; n <= 70; n++ {
+		sizes = append(sizes, n)
+	}
+	sizes = append(sizes, 127, 128, 129, 130, 255, 256, 257, 1023, 1024, 1025)
+	for _, n := range sizes {
+		for _, lead := range []uint32{0, 5} {
+			var body []byte
+			var ev []refsmf.Event
+			var run byte
+			k := 0
+			for burst := 0; burst < 3; burst++ {
+				for e := 0; e < n+burst; e++ {
+					d := uint32(0)
+					if e == 0 {
+						d = lead + uint32(burst)*7
+					}
+					st := byte(0x90 + (k/5)%3)
+					msg := []byte{st, byte(0x30 + k%64), byte(0x01 + k%100)}
+					body = append(body, refsmf.VLQ(d)...)
+					if st != run || k%7 == 3 {
+						body = append(body, st)
+					}
+					run = st
+					body = append(body, msg[1], msg[2])
+					ev = append(ev, refsmf.Event{Delta: d, Msg: msg})
+					k++
+				}
+			}
+			body = append(body, 0x01, 0xFF, 0x2F, 0x00)
+			ev = append(ev, refsmf.Event{Delta: 1, Msg: refsmf.EOT})
+			bodies = append(bodies, body)
+			evs = append(evs, ev)
+		}
+	}
+	return
+}
+
+// MagicSpelling: track data in which deltas and data bytes under running
+// status spell 'MTrk' / 'MThd' at every alignment of an event boundary.
+func MagicSpelling() (bodies [][]byte, evs [][]refsmf.Event) {
+	for _, magic := range []string{"MTrk", "MThd"} {
+		b := []byte(magic)
+		for align := 0; align < 3; align++ {
+			x := []byte{0x01, 0x40, 0x41, 0x02, 0x42, 0x43, 0x03}
+			copy(x[align:], b)
+			body := []byte{0x00, 0x90, 0x3C, 0x40, x[0], x[1], x[2], x[3], x[4], x[5], x[6], 0x3D, 0x41, 0x01, 0x3C, 0x40, 0x02, 0xFF, 0x2F, 0x00}
+			ev := []refsmf.Event{{0, []byte{0x90, 0x3C, 0x40}}, {uint32(x[0]), []byte{0x90, x[1], x[2]}}, {uint32(x[3]), []byte{0x90, x[4], x[5]}},
+				{uint32(x[6]), []byte{0x90, 0x3D, 0x41}}, {1, []byte{0x90, 0x3C, 0x40}}, {2, refsmf.EOT}}
+			bodies = append(bodies, body)
+			evs = append(evs, ev)
+		}
+		for align := 0; align < 2; align++ {
+			x := []byte{0x01, 0x05, 0x02, 0x06, 0x03, 0x07}
+			copy(x[align:], b)
+			body := []byte{0x00, 0xC0, 0x01, x[0], x[1], x[2], x[3], x[4], x[5], 0x01, 0x01, 0x02, 0xFF, 0x2F, 0x00}
+			ev := []refsmf.Event{{0, []byte{0xC0, 0x01}}, {uint32(x[0]), []byte{0xC0, x[1]}}, {uint32(x[2]), []byte{0xC0, x[3]}}, {uint32(x[4]), []byte{0xC0, x[5]}},
+				{1, []byte{0xC0, 0x01}}, {2, refsmf.EOT}}
+			bodies = append(bodies, body)
+			evs = append(evs, ev)
+		}
+	}
+	return
+}
+
 // EOTEncodings returns files of two and three tracks in which one track's
 // end-of-track event carries its zero length in a non-minimal form (FF 2F 80
 // 00, FF 2F 80 80 00 ...): legal variable-length quantities, same content.
